@@ -130,7 +130,9 @@ pub open spec fn diag_estimated_from(t: TransView, fg: Seq<Sample>, d: nat) -> b
 pub open spec fn diag_adapt_extra<M: Math>(s: Strategy<M>, m0: DiagMassMatrix<M>, m1: DiagMassMatrix<M>, r: bool) -> bool {
     let vd = M::vv(&s.exp_variance_draw.variance); let vg = M::vv(&s.exp_variance_grad.variance);
     let md = M::vv(&s.exp_variance_draw.mean); let mg = M::vv(&s.exp_variance_grad.mean);
-    r ==> {
+    // [C08.1] the diagonal estimator always re-estimates once three samples are available
+    &&& (s.exp_variance_draw.count >= 3 ==> r)
+    &&& r ==> {
         &&& m1.store_mass_matrix == m0.store_mass_matrix
         &&& m1.logdet.r() == sum_ln(M::vv(&m1.inv_stds))
         &&& s._settings.use_grad_based_estimate ==> {
